@@ -6,16 +6,17 @@
 package main
 
 import (
-	"regexp"
 	"bufio"
 	"crypto/sha1"
 	"encoding/json"
 	"flag"
 	"fmt"
 	"os"
+	"regexp"
 	"runtime/debug"
 	"sort"
 	"strings"
+	"time"
 )
 
 type Case struct {
@@ -92,6 +93,8 @@ type Summary struct {
 	Mismatches         []Mismatch     `json:"mismatches"`
 	Samples            []string       `json:"samples"`
 	Panics             int            `json:"panics"`
+	// set when a case did not return in time: the harness stops there (the stuck goroutine cannot be killed)
+	Aborted string `json:"aborted,omitempty"`
 }
 
 func run(c *Case) (impl string) {
@@ -135,6 +138,7 @@ var panicRe = regexp.MustCompile(`\bpanic\b`)
 func main() {
 	maxMis := flag.Int("max-mismatches", 50, "mismatches to report in full")
 	nsamples := flag.Int("samples", 3, "sample cases to echo per tag")
+	caseTimeout := flag.Duration("case-timeout", 300*time.Second, "a case that has not returned after this long counts as an endless loop")
 	flag.Parse()
 	in := bufio.NewReaderSize(os.Stdin, 1<<20)
 	sum := Summary{Ops: map[string]int{}, Tags: map[string]int{}, Outcomes: map[string]int{}}
@@ -150,7 +154,22 @@ func main() {
 			}
 			json.Unmarshal(line, &c.Raw)
 			c.Line = string(line[:len(line)-1])
-			impl := run(&c)
+			// every case runs under a watchdog: the library must terminate on every input (C03, and no muxer call loops)
+			implCh := make(chan string, 1)
+			go func() { implCh <- run(&c) }()
+			var impl string
+			select {
+			case impl = <-implCh:
+			case <-time.After(*caseTimeout):
+				sum.Evaluations++
+				sum.JudgeFail++
+				sum.Aborted = fmt.Sprintf("case %d (%s, tag %s) did not return within %s", c.ID, c.Do, c.Tag, *caseTimeout)
+				sum.Mismatches = append([]Mismatch{{c.ID, "judge", "", c.Tag, c.Do, "hang", c.Model, "<judge:terminates>", c.Line}}, sum.Mismatches...)
+				sum.DistinctNontrivial = len(distinct)
+				out, _ := json.Marshal(sum)
+				fmt.Println(string(out))
+				os.Exit(0)
+			}
 			sum.Evaluations++
 			sum.Ops[c.Do]++
 			sum.Tags[c.Tag]++
